@@ -5,7 +5,7 @@
    per worker and Start spawns one goroutine per state), so two bodies running
    at once hold different handles by construction; handle identity in the real
    code is observed by the harness (live set of *T pointers). *)
-From F1 Require Import Base.Prelude Model.Pool Proofs.PoolBase Proofs.PoolFinal.
+From F1 Require Import Base.Prelude Model.Pool Proofs.PoolBase Proofs.PoolFinal Model.ContPool Proofs.ContPoolProofs.
 
 (* At no instant are more than `concurrency` bodies executing. *)
 Theorem C04_bound : forall n maxit ticks sched,
@@ -18,6 +18,17 @@ Proof.
   split; [|exact Hl]. unfold in_flight. rewrite <- Hl. apply zcount_le_length.
 Qed.
 Print Assumptions C04_bound.
+
+(* Users mode: the same bound for the continuous pool. *)
+Theorem C04_users_bound : forall n maxit sched,
+  let s := cexec (cinit n maxit) sched in
+  c_in_flight s <= Z.of_nat n /\ length (k_workers s) = n.
+Proof.
+  intros n maxit sched s.
+  assert (Hl : length (k_workers s) = n) by (unfold s; rewrite k_workers_length_exec; cbn; apply repeat_length).
+  split; [|exact Hl]. unfold c_in_flight. rewrite <- Hl. apply zcount_le_length.
+Qed.
+Print Assumptions C04_users_bound.
 
 (* Conversely all workers can be executing at the same time when at least
    `concurrency` requests are pending: witness schedules for pools of 1 to 4
